@@ -68,6 +68,9 @@ class Exec:
             return [(st, V(("class",), None, py=e.id))]
         if e.id in ("int", "float", "bool", "str", "list", "dict"):
             return [(st, V(("class",), None, py=e.id))]
+        cands = [val for (mod, name), val in self.src.consts.items() if name == e.id]
+        if cands and all(ast.unparse(c) == ast.unparse(cands[0]) for c in cands) and isinstance(cands[0], (ast.Constant, ast.UnaryOp)):
+            return self.ev(cands[0], st, d)          # module-level constant (e.g. MARGIN_FIXED = 0)
         raise Unsupported(f"name {e.id} (line {e.lineno})")
 
     def deref(self, o, st, what):
